@@ -7,6 +7,10 @@ All statements are about `Mxl.sortDeps`, the function the driver executes, which
 import MxlVerif.Lemmas.Sort
 import MxlVerif.Lemmas.SortMissing
 import MxlVerif.Lemmas.Unique
+import MxlVerif.Lemmas.PermInvariant
+import MxlVerif.Lemmas.PermArgs
+import MxlVerif.Lemmas.Reject
+import MxlVerif.Lemmas.PermRhs
 namespace Mxl.C02
 open Mxl
 
@@ -143,6 +147,96 @@ theorem C02_order_independent_values {c c' : Content}
     ∀ kv ∈ cache.init, ∀ kv' ∈ cache'.init, kv.1 = kv'.1 → kv.2 = kv'.2 :=
   createCache_init_unique hts hbase hav hwf hwf' h h'
 
+/-- **Declaration order is irrelevant — for the executable pipeline itself.**  `c'` declares the
+    same variables, parameters, derived quantities, reactions, surrogates and data as `c`, each
+    container in any other order (`SameContent`).  If `_create_cache` (= `_sort_dependencies` +
+    one evaluation pass + classification) returns for `c`, it returns for `c'`, and the two caches
+    are equal as maps: every variable has the same initial value, every parameter / assignment-
+    defined parameter / derived parameter the same value, the same components are re-evaluated per
+    state, and the two time-zero environments agree on every name. -/
+theorem C02_declaration_order_irrelevant {c c' : Content} (hn : WFnames c)
+    (hsame : SameContent c' c) {cache : Cache} (hc : createCache c = .ok cache) :
+    ∃ cache', createCache c' = .ok cache' ∧
+      (∀ k, cache'.init.lookup k = cache.init.lookup k) ∧
+      (∀ k, cache'.allPars.lookup k = cache.allPars.lookup k) ∧
+      (∀ k, k ∈ cache'.dynOrder ↔ k ∈ cache.dynOrder) ∧
+      ∃ dep dep',
+        evalInOrder c.toSort cache.order
+          (baseEnv (plainOf c.pars) (plainOf c.vars) c.data 0) = .ok dep ∧
+        evalInOrder c'.toSort cache'.order
+          (baseEnv (plainOf c'.pars) (plainOf c'.vars) c'.data 0) = .ok dep' ∧
+        ∀ n, dep'.lookup n = dep.lookup n :=
+  createCache_perm_invariant hn hsame hc
+
+/-- **… and so is every later answer.**  For the two caches of `C02_declaration_order_irrelevant`,
+    the same state (given as a map over the variables, listed in each content's own declaration
+    order) and the same time yield argument tables — the dict `_get_args` builds, from which
+    `get_args`, `get_fluxes`, the right-hand side and the time-course forms are read — that agree
+    on every name. -/
+theorem C02_argument_table_order_independent {c c' : Content} (hn : WFnames c)
+    (hsame : SameContent c' c) {cache cache' : Cache}
+    (hc : createCache c = .ok cache) (hc' : createCache c' = .ok cache')
+    (vars vars' : List (Name × Rat)) (hv : vars.map (·.1) = omKeys c.vars)
+    (hv' : vars'.map (·.1) = omKeys c'.vars) (hvv : ∀ k, vars'.lookup k = vars.lookup k) (t : Rat)
+    {env env' : Env} (he : getArgsEnv c cache vars t = .ok env)
+    (he' : getArgsEnv c' cache' vars' t = .ok env') : ∀ n, env'.lookup n = env.lookup n := by
+  obtain ⟨cache'', hc'', _, hpars, hdyn, _⟩ := createCache_perm_invariant hn hsame hc
+  rw [hc'] at hc''; cases hc''
+  exact getArgsEnv_perm_invariant hn hsame hc hc' hpars hdyn vars vars' hv hv' hvv t he he'
+
+/-- **… down to the derivatives.**  The positional right-hand side `Model.__call__` of a well-named
+    content and of any re-declaration of it in another order, asked at the same state (as a map
+    variable ↦ value; each vector listed in its own content's variable order) and time, returns the
+    same derivative for every variable (flux names distinct, each stoichiometry naming a compound
+    once — dict keys — as in `C01_rhs_is_Nv`). -/
+theorem C02_derivatives_order_independent {c c' : Content} (hn : WFnames c)
+    (hsame : SameContent c' c) (hflux : (omKeys c.allStoich).Nodup)
+    (hcpd : ∀ flux s, (flux, s) ∈ c.allStoich → (omKeys s).Nodup)
+    {t : Rat} {xs xs' d d' : List Rat}
+    (hstate : ∀ k, ((omKeys c'.vars).zip xs').lookup k = ((omKeys c.vars).zip xs).lookup k)
+    (h : callRhs c t xs = .ok d) (h' : callRhs c' t xs' = .ok d') :
+    ∀ x, ((omKeys c'.vars).zip d').lookup x = ((omKeys c.vars).zip d).lookup x :=
+  callRhs_perm_invariant hn hsame hflux hcpd hstate h h'
+
+/-- **The verdict is a function of the graph alone**: acyclic and complete → an order; some
+    required name provided by nothing → the missing-dependency error; complete but not acyclic →
+    the circular-dependency error.  (The three graph conditions are exhaustive and exclusive.) -/
+theorem C02_verdict_by_graph (av : List Name) (els : List Dep) (hnd : (els.map (·.name)).Nodup) :
+    (Sortable av els → ∃ o, sortDeps av els = .ok o) ∧
+    (Incomplete av els → ∃ m, sortDeps av els = .error (.missing m)) ∧
+    (¬ Incomplete av els → ¬ Sortable av els → ∃ u, sortDeps av els = .error (.circular u)) :=
+  sortDeps_verdict av els hnd
+
+/-- **Rejection is order independent as well**: re-declaring the same content in another order
+    never turns numbers into an error, an error into numbers, or one error class into the other. -/
+theorem C02_outcome_order_independent {c c' : Content} (hn : WFnames c)
+    (hsame : SameContent c' c) : outcome (createCache c') = outcome (createCache c) :=
+  outcome_perm_invariant hn hsame
+
+/-- **In neither case are numbers returned — at any entry point.**  When `_create_cache` rejects the
+    graph, initial conditions, parameter values, derived-name lists, the argument table (any flags),
+    fluxes, the named and the positional right-hand side and the stoichiometry table all fail with
+    that same error. -/
+theorem C02_rejected_everywhere {c : Content} {e : Err} (h : createCache c = .error e) :
+    getInit c = .error e ∧ getParameterValues c = .error e ∧ getClasses c = .error e ∧
+    (∀ vars t, getArgs c vars t = .error e) ∧ (∀ vars t, getFluxes c vars t = .error e) ∧
+    (∀ vars t, getRhsQ c vars t = .error e) ∧ (∀ t xs, callRhs c t xs = .error e) ∧
+    (∀ vars t, getStoich c vars t = .error e) ∧
+    (∀ vars t f, getArgsSel c vars t f = .error e) :=
+  queries_reject h
+
+/-- **The missing-dependency error at the model level**: for a well-named content in which some
+    component requires a name nothing provides, `_create_cache` (hence every query) fails with the
+    missing-dependency error listing, per offending component in declaration order, exactly the
+    required names that are neither initially available nor provided by any component. -/
+theorem C02_missing_exact_at_cache {c : Content} (hn : WFnames c)
+    (hmiss : Incomplete c.available c.deps) :
+    createCache c = .error (.missing
+      (c.deps.filterMap fun d =>
+        if ready (allAvailable c.available c.deps) d then none
+        else some (d.name, missingOf (allAvailable c.available c.deps) d))) :=
+  createCache_missing_exact hn hmiss
+
 /-! ### non-vacuity: concrete graphs meeting the hypotheses -/
 
 deriving instance DecidableEq for Except
@@ -163,5 +257,23 @@ example : sortDeps [] [⟨"a", ["b"], ["a"]⟩, ⟨"b", ["a"], ["b"]⟩]
     = .error (.circular [("b", ["a"]), ("a", ["b"])]) := by decide
 example : sortDeps ["p"] [⟨"a", ["zz", "p", "yy"], ["a"]⟩]
     = .error (.missing [("a", ["yy", "zz"])]) := by decide
+
+/-- a content and its reverse declaration: `SameContent`, well-named, and both build -/
+def exC : Content :=
+  { vars := [("x", .plain 2), ("y", .ia ⟨["d"], fun v => v.getD 0 0⟩)],
+    pars := [("p", .plain 3), ("q", .ia ⟨["p"], fun v => 2 * v.getD 0 0⟩)],
+    derived := [("d", ⟨["q"], fun v => v.getD 0 0 + 1⟩), ("e", ⟨["d", "x"], fun v => v.getD 0 0 * v.getD 1 0⟩)],
+    rxns := [("r", ⟨⟨["e"], fun v => v.getD 0 0⟩, [("x", .num (-1))]⟩)] }
+
+def exC' : Content :=
+  { exC with vars := exC.vars.reverse, pars := exC.pars.reverse, derived := exC.derived.reverse }
+
+example : SameContent exC' exC :=
+  ⟨List.reverse_perm _, List.reverse_perm _, List.reverse_perm _, .refl _, .refl _, .refl _⟩
+
+example : WFnames exC := ⟨by decide +kernel, by intro kv h; cases h⟩
+
+example : (createCache exC).toOption.map (·.init) = some [("x", 2), ("y", 7)] := by decide +kernel
+example : (createCache exC').toOption.map (·.init) = some [("y", 7), ("x", 2)] := by decide +kernel
 
 end Mxl.C02
